@@ -107,8 +107,8 @@ def build(prop, tier="quick"):
           "{ const int verif_exc = verif_eval_file(self, appendedpath, &verif_efile); retval = 1; if (verif_exc == K_file_not_found_error) VERIF_GOTO_CATCH; "
           "if (verif_exc != K_none) VERIF_PROPAGATE(K_other, \"an error while evaluating the file\"); }", min_fire=1)
     r.add("R9.ret", r"\breturn retval;", "{ verif_ret_index = verif_i; return; }", min_fire=1)
-    r.add("R9.efile", r"\be\.filename != appendedpath\b", "verif_efile != appendedpath", min_fire=1)
-    r.add("R9.rethrow", r"\bthrow;", "VERIF_PROPAGATE(K_file_not_found_error, \"a nested include failed\");", min_fire=1)
+    r.add("R9.efile", r"\be\.filename != appendedpath\b", "verif_efile != appendedpath")
+    r.add("R9.rethrow", r"\bthrow;", "VERIF_PROPAGATE(K_file_not_found_error, \"a nested include failed\");")
     r.add("R5.final", r"\bthrow exception::file_not_found_error\(t_filename\);",
           "{ __CPROVER_assert(!verif_k_alive, \"[P] file_not_found_error only if no use path has the file (for every path k)\"); "
           "VERIF_PROPAGATE(K_file_not_found_error, \"failed to load by any name\"); }", min_fire=1)
